@@ -10,7 +10,7 @@ for ID in "$@"; do
   echo "--- check $ID on the changed tree:"; echo "$OUT"
   RES="$RES\n== ./check $ID quick ==\n$OUT"
 done
-git -C /repo checkout -- .
+git -C /repo checkout -- . && git -C /repo clean -fdq src
 git -C /verif checkout -- evidence lean/Rws/Gen 2>/dev/null
 (cd /verif/harness && RWS_SRC=/repo/src cargo build --offline >/dev/null 2>&1)
 HEAD3=$(grep -E "^(demo pristine|demo changed|suite with change):" $S/ran.txt)
